@@ -317,3 +317,501 @@ Proof.
     destruct y as [w|]; cbn [filter]; [reflexivity|]. unfold neqk. assert (rkey_eqb k0 k = false) as ->; [|reflexivity].
     destruct (rkey_eqb k0 k) eqn:E'; [apply rkey_eqb_eq in E'; subst; rewrite rkey_eqb_refl in E; discriminate|reflexivity].
 Qed.
+
+(** * the invariant *)
+Definition active (ss : list (N * scope)) (k : rkey) : Prop :=
+  exists id sc x a, In (id, sc) ss /\ In (x, (VRecur k, a)) sc.
+Definition allk (s : st) (k : rkey) : Prop := dom (refs s) k \/ active (scopes s) k.
+
+Definition refs_cl (r : list (rkey * option aval)) (D : rkey -> Prop) : Prop :=
+  forall k v a, In (k, Some (v, a)) r -> sub (ks_value v) D.
+Definition scopes_cl (ss : list (N * scope)) (D : rkey -> Prop) : Prop :=
+  forall id sc x v a, In (id, sc) ss -> In (x, (v, a)) sc -> sub (ks_value v) D.
+Definition norec (l : list rkey) : Prop := forall k, In k l -> match k with KRec _ _ _ => False | _ => True end.
+
+Record inv (s : st) : Prop := {
+  inv_refs : refs_cl (refs s) (allk s);
+  inv_scopes : scopes_cl (scopes s) (allk s);
+  inv_nodup : NoDup (map fst (refs s));
+  inv_norec : norec (pending (refs s)) }.
+
+Definition good {B} (s : st) (Q : st -> B -> Prop) (r : res (st * B)) : Prop :=
+  match r with
+  | Ok (s', b) =>
+      inv s' /\ Q s' b /\ (forall k, dom (refs s) k -> dom (refs s') k) /\
+      scopes s' = scopes s /\ pending (refs s') = pending (refs s)
+  | _ => True
+  end.
+
+Lemma allk_mono s s' : (forall k, dom (refs s) k -> dom (refs s') k) -> scopes s' = scopes s ->
+  forall k, allk s k -> allk s' k.
+Proof. intros Hd Hs k [H|H]; [left; apply Hd, H|right; rewrite Hs; exact H]. Qed.
+
+Lemma good_bind {B C} s (Q : st -> B -> Prop) (R : st -> C -> Prop) (r : res (st * B)) (k : st * B -> res (st * C)) :
+  good s Q r ->
+  (forall s1 b, inv s1 -> Q s1 b -> (forall k, dom (refs s) k -> dom (refs s1) k) -> scopes s1 = scopes s ->
+                pending (refs s1) = pending (refs s) ->
+                good s1 (fun s2 c => R s2 c) (k (s1, b))) ->
+  good s R (bind r k).
+Proof.
+  intros Hr Hk. destruct r as [[s1 b]|x|p|]; cbn [good bind] in *; try exact I.
+  destruct Hr as (Hi & Hq & Hd & Hs & Hp). specialize (Hk s1 b Hi Hq Hd Hs Hp).
+  destruct (k (s1, b)) as [[s2 c]|x|p|]; cbn [good] in *; try exact I.
+  destruct Hk as (Hi2 & Hr2 & Hd2 & Hs2 & Hp2).
+  split; [exact Hi2|]. split; [exact Hr2|]. split; [intros k0 Hk0; apply Hd2, Hd, Hk0|]. split; congruence.
+Qed.
+
+Lemma good_pure {B C} s (R : st -> C -> Prop) (c : res B) (k : B -> res (st * C)) :
+  (forall x, c = Ok x -> good s R (k x)) -> good s R (bind c k).
+Proof. intros Hk. destruct c as [x|x|p|]; cbn [bind good]; try exact I. apply Hk. reflexivity. Qed.
+
+Lemma good_ret {B} s (R : st -> B -> Prop) b : inv s -> R s b -> good s R (Ok (s, b)).
+Proof. intros Hi Hr. cbn [good]. split; [exact Hi|]. split; [exact Hr|]. split; [auto|]. split; reflexivity. Qed.
+
+(** closedness of a result with respect to the keys of the state it comes with *)
+Definition CL {B} (ks : B -> list rkey) : st -> B -> Prop := fun s b => sub (ks b) (allk s).
+
+Section Lists.
+  Context {X B : Type}.
+  Variable ks : B -> list rkey.
+  Variable f : st -> X -> res (st * B).
+  Hypothesis Hf : forall s x, inv s -> good s (CL ks) (f s x).
+
+  Lemma map_st_good l : forall s, inv s -> good s (CL (flat_map ks)) (map_st f s l).
+  Proof.
+    induction l as [|x l IH]; intros s Hi.
+    - cbn [map_st]. apply good_ret; [exact Hi|apply sub_nil].
+    - cbn [map_st]. eapply good_bind; [apply Hf, Hi|].
+      intros s1 b Hi1 Hb Hd1 Hs1 Hp1. eapply good_bind; [apply IH, Hi1|].
+      intros s2 bs Hi2 Hbs Hd2 Hs2 Hp2. apply good_ret; [exact Hi2|].
+      unfold CL in *. cbn [flat_map]. apply sub_app. split; [|exact Hbs].
+      eapply sub_mono; [apply (allk_mono s1 s2 Hd2 Hs2)|exact Hb].
+  Qed.
+
+  Lemma opt_st_good o : forall s, inv s ->
+    good s (CL (fun ob => match ob with Some b => ks b | None => [] end)) (opt_st f s o).
+  Proof.
+    intros s Hi. destruct o as [x|]; cbn [opt_st].
+    - eapply good_bind; [apply Hf, Hi|]. intros s1 b Hi1 Hb _ _ _. apply good_ret; assumption.
+    - apply good_ret; [exact Hi|apply sub_nil].
+  Qed.
+End Lists.
+
+(** an evaluation followed by a cast that does not invent keys *)
+Lemma step_good {B} (ev : st -> expr -> res (st * aval)) (c : aval -> res B) (ks : B -> list rkey) :
+  (forall s e, inv s -> good s (CL (fun va : aval => ks_value (fst va))) (ev s e)) ->
+  (forall va x D, c va = Ok x -> sub (ks_value (fst va)) D -> sub (ks x) D) ->
+  forall s e, inv s -> good s (CL ks) (do (s', v) <- ev s e; do x <- c v; Ok (s', x)).
+Proof.
+  intros Hev Hc s e Hi. eapply good_bind; [apply Hev, Hi|].
+  intros s1 va Hi1 Hva _ _ _. cbn beta iota. apply good_pure. intros x Hx.
+  apply good_ret; [exact Hi1|]. unfold CL in *. eapply Hc; eassumption.
+Qed.
+
+Lemma im_get_in x (sc : scope) va : im_get N.eqb x sc = Some va -> In (x, va) sc.
+Proof.
+  induction sc as [|[k w] sc IH]; cbn [im_get]; [discriminate|].
+  destruct (N.eqb_spec x k) as [->|_]; [intros [= ->]; left; reflexivity|intros H; right; apply IH, H].
+Qed.
+
+Lemma lookup_in x ss va : lookup_binding x ss = Some va -> exists id sc, In (id, sc) ss /\ In (x, va) sc.
+Proof.
+  induction ss as [|[id sc] ss IH]; cbn [lookup_binding]; [discriminate|].
+  destruct (im_get N.eqb x sc) as [w|] eqn:E.
+  - intros [= ->]. exists id, sc. split; [left; reflexivity|apply im_get_in, E].
+  - intros H. destruct (IH H) as (id' & sc' & H1 & H2). exists id', sc'. split; [right; exact H1|exact H2].
+Qed.
+
+Lemma im_insert_scope_in p (v : aval) (sc : scope) x w : In (x, w) (im_insert N.eqb p v sc) -> (x = p /\ w = v) \/ In (x, w) sc.
+Proof.
+  induction sc as [|[k u] sc IH]; cbn [im_insert In].
+  - intros [[= <- <-]|[]]. left. auto.
+  - destruct (N.eqb_spec p k) as [->|_].
+    + intros [[= <- <-]|H]; [left; auto|right; right; exact H].
+    + intros [H|H]; [right; left; exact H|]. destruct (IH H) as [H'|H']; [left; exact H'|right; right; exact H'].
+Qed.
+
+Lemma filter_subset k l k' : In k' (filter (neqk k) l) -> In k' l.
+Proof. intros H. apply filter_In in H. apply H. Qed.
+
+Definition scope_cl (sc : scope) (D : rkey -> Prop) : Prop := forall x v a, In (x, (v, a)) sc -> sub (ks_value v) D.
+
+Section Main.
+  Variable P : prog.
+
+  Definition VAL : st -> aval -> Prop := CL (fun va : aval => ks_value (fst va)).
+
+  (** states that differ from [s] by more references only *)
+  Lemma inv_set_refs_none s key : inv s -> rget key (refs s) = None ->
+    match key with KRec _ _ _ => False | _ => True end ->
+    inv (set_refs s (rinsert key None (refs s))).
+  Proof.
+    intros [Hr Hs Hn Hp] Hget Hk.
+    assert (Hmono : forall k, allk s k -> allk (set_refs s (rinsert key None (refs s))) k).
+    { apply allk_mono; [|reflexivity]. intros k Hd. cbn [set_refs refs]. apply rinsert_dom. right. exact Hd. }
+    constructor; cbn [set_refs refs scopes].
+    - intros k v a Hin. apply rinsert_in in Hin as [[_ Hx]|Hin]; [discriminate Hx|].
+      eapply sub_mono; [exact Hmono|]. eapply Hr, Hin.
+    - intros id sc x v a H1 H2. eapply sub_mono; [exact Hmono|]. eapply Hs; eassumption.
+    - apply rinsert_nodup, Hn.
+    - rewrite pending_insert_none by (apply rget_none_dom, Hget).
+      intros k Hin. apply in_app_or in Hin as [Hin|[<-|[]]]; [apply Hp, Hin|exact Hk].
+  Qed.
+
+  Lemma inv_set_refs_some s key v a :
+    inv s -> sub (ks_value v) (allk s) -> inv (set_refs s (rinsert key (Some (v, a)) (refs s))).
+  Proof.
+    intros [Hr Hs Hn Hp] Hv.
+    assert (Hmono : forall k, allk s k -> allk (set_refs s (rinsert key (Some (v, a)) (refs s))) k).
+    { apply allk_mono; [|reflexivity]. intros k Hd. cbn [set_refs refs]. apply rinsert_dom. right. exact Hd. }
+    constructor; cbn [set_refs refs scopes].
+    - intros k v' a' Hin. apply rinsert_in in Hin as [[_ Hx]|Hin].
+      + injection Hx as -> ->. eapply sub_mono; [exact Hmono|exact Hv].
+      + eapply sub_mono; [exact Hmono|]. eapply Hr, Hin.
+    - intros id sc x v' a' H1 H2. eapply sub_mono; [exact Hmono|]. eapply Hs; eassumption.
+    - apply rinsert_nodup, Hn.
+    - rewrite pending_insert_some by exact Hn. intros k Hin. apply Hp. eapply filter_subset, Hin.
+  Qed.
+
+  Lemma inv_push s sc : inv s -> scope_cl sc (allk s) -> inv (push_scope s sc).
+  Proof.
+    intros [Hr Hs Hn Hp] Hsc.
+    assert (Hmono : forall k, allk s k -> allk (push_scope s sc) k).
+    { intros k [H|(id & sc' & x & a & H1 & H2)]; [left; exact H|right]. exists id, sc', x, a. split; [right; exact H1|exact H2]. }
+    constructor; cbn [push_scope refs scopes]; try assumption.
+    - intros k v a Hin. eapply sub_mono; [exact Hmono|]. eapply Hr, Hin.
+    - intros id sc' x v a [[= <- <-]|H1] H2.
+      + eapply sub_mono; [exact Hmono|]. eapply Hsc, H2.
+      + eapply sub_mono; [exact Hmono|]. eapply Hs; eassumption.
+  Qed.
+
+  (** leaving a scope whose recursion keys are accounted for elsewhere *)
+  Lemma inv_pop s id sc rest : inv s -> scopes s = (id, sc) :: rest ->
+    (forall k x a, In (x, (VRecur k, a)) sc -> allk (pop_scope s) k) ->
+    inv (pop_scope s) /\ (forall k, allk s k -> allk (pop_scope s) k).
+  Proof.
+    intros [Hr Hs Hn Hp] Hsc Hk.
+    assert (Hmono : forall k, allk s k -> allk (pop_scope s) k).
+    { intros k [H|(id' & sc' & x & a & H1 & H2)]; [left; exact H|].
+      rewrite Hsc in H1. destruct H1 as [[= <- <-]|H1]; [eapply Hk, H2|].
+      right. unfold pop_scope. cbn [scopes]. rewrite Hsc. cbn [tl]. exists id', sc', x, a. auto. }
+    split; [|exact Hmono].
+    constructor; cbn [pop_scope refs scopes]; try assumption.
+    - intros k v a Hin. eapply sub_mono; [exact Hmono|]. eapply Hr, Hin.
+    - intros id' sc' x v a H1 H2. rewrite Hsc in H1. cbn [tl] in H1.
+      eapply sub_mono; [exact Hmono|]. eapply (Hs id' sc'); [rewrite Hsc; right; exact H1|exact H2].
+  Qed.
+
+  Section Args.
+    Variable ev : st -> expr -> res (st * aval).
+    Hypothesis Hev : forall s e, inv s -> good s VAL (ev s e).
+
+    Lemma bind_args_good args : forall s ps sc, inv s -> scope_cl sc (allk s) ->
+      good s (fun s' sc' => scope_cl sc' (allk s')) (bind_args ev s ps args sc).
+    Proof.
+      induction args as [|a args IH]; intros s ps sc Hi Hsc.
+      - destruct ps; apply good_ret; assumption.
+      - destruct ps as [|p ps]; [apply good_ret; assumption|].
+        cbn [bind_args]. eapply good_bind; [apply Hev, Hi|].
+        intros s1 [v a1] Hi1 Hv Hd1 Hs1 _. cbn beta iota.
+        apply IH; [exact Hi1|].
+        intros x w aw Hin. apply im_insert_scope_in in Hin as [[_ Hx]|Hin].
+        + injection Hx as -> ->. exact Hv.
+        + eapply sub_mono; [apply (allk_mono s s1 Hd1 Hs1)|]. eapply Hsc, Hin.
+    Qed.
+
+    Lemma eval_metas_good ms : forall s (acc : meta_acc), inv s -> sub (ks_oprops (snd acc)) (allk s) ->
+      good s (fun s' (acc' : meta_acc) => sub (ks_oprops (snd acc')) (allk s')) (eval_metas ev s ms acc).
+    Proof.
+      induction ms as [|[k rhs] ms IH]; intros s acc Hi Hacc.
+      - apply good_ret; assumption.
+      - cbn [eval_metas]. eapply good_bind; [apply Hev, Hi|].
+        intros s1 [v a1] Hi1 Hv Hd1 Hs1 _. cbn beta iota. destruct acc as [[status media] headers]. cbn [fst snd] in *.
+        assert (Hacc1 : sub (ks_oprops headers) (allk s1)) by (eapply sub_mono; [apply (allk_mono s s1 Hd1 Hs1)|exact Hacc]).
+        destruct k as [|[p|p|]].
+        + apply good_pure. intros x _. apply IH; assumption.
+        + apply good_pure. intros x _. apply IH; assumption.
+        + apply good_pure. intros x _. apply IH; assumption.
+        + apply good_pure. intros x Hx. apply IH; [exact Hi1|]. cbn [snd ks_oprops]. eapply cast_object_ks; eassumption.
+    Qed.
+  End Args.
+
+  Lemma fold_extend_ks rs : forall acc D, sub (ks_ranges acc) D -> sub (flat_map ks_ranges rs) D ->
+    sub (ks_ranges (fold_left (im_extend rgkey_eqb) rs acc)) D.
+  Proof.
+    induction rs as [|r rs IH]; intros acc D Ha Hr; cbn [fold_left]; [exact Ha|].
+    cbn [flat_map] in Hr. apply sub_app in Hr as [Hr1 Hr2]. apply IH; [apply im_extend_ranges_ks; assumption|exact Hr2].
+  Qed.
+
+  Lemma fold_add_xfer_ks ts : forall xs D, sub (ks_xfers xs) D -> sub (flat_map ks_transfer ts) D ->
+    sub (ks_xfers (fold_left add_xfer ts xs)) D.
+  Proof.
+    induction ts as [|t ts IH]; intros xs D Hx Ht; cbn [fold_left]; [exact Hx|].
+    cbn [flat_map] in Ht. apply sub_app in Ht as [Ht1 Ht2]. apply IH; [apply add_xfer_ks; assumption|exact Ht2].
+  Qed.
+
+  Lemma closure : forall n s e a, inv s -> good s VAL (eval false P n s e a).
+  Proof.
+    induction n as [|n IH]; intros s e a Hi; [exact I|].
+    assert (IH0 : forall s e, inv s -> good s VAL (eval false P n s e [])) by (intros; apply IH; assumption).
+    set (EV := fun s e => eval false P n s e []) in *.
+    destruct e; cbn [eval]; fold EV.
+    - (* ETerm *) apply good_pure. intros x _. apply IH, Hi.
+    - (* ESub *) apply IH, Hi.
+    - (* EPrim *) apply good_pure. intros v Hv. apply good_ret; [exact Hi|]. unfold VAL, CL. cbn [fst]. rewrite (prim_value_ks _ _ _ Hv). apply sub_nil.
+    - apply good_ret; [exact Hi|apply sub_nil].
+    - apply good_ret; [exact Hi|apply sub_nil].
+    - apply good_ret; [exact Hi|apply sub_nil].
+    - (* EDecl *)
+      destruct (get_decl P m i) as [d|]; [|exact I].
+      destruct (d_params d) as [|p ps]; [|apply good_ret; [exact Hi|apply sub_nil]].
+      apply good_pure. intros da _.
+      destruct ((match d_ref d with Some _ => true | None => false end) || d_rec d); [|apply IH, Hi].
+      set (key := match d_ref d with Some x => KNamed x | None => KDecl m i end).
+      assert (Hkey : match key with KRec _ _ _ => False | _ => True end) by (subst key; destruct (d_ref d); exact I).
+      destruct (rget key (refs s)) as [[[v va]|]|] eqn:Hget.
+      + apply good_ret; [exact Hi|]. unfold VAL, CL. cbn [fst snd ks_value].
+        intros k [<-|Hk].
+        * left. apply rget_in in Hget. apply (in_map fst) in Hget. exact Hget.
+        * apply rget_in in Hget. eapply (inv_refs s Hi), Hk. exact Hget.
+      + apply good_ret; [exact Hi|]. unfold VAL, CL. cbn [fst ks_value]. intros k [<-|[]].
+        left. apply rget_in in Hget. apply (in_map fst) in Hget. exact Hget.
+      + pose proof (inv_set_refs_none s key Hi Hget Hkey) as Hi1.
+        set (s1 := set_refs s (rinsert key None (refs s))) in *.
+        pose proof (IH s1 (d_rhs d) (extend da a) Hi1) as Hb.
+        destruct (eval false P n s1 (d_rhs d) (extend da a)) as [[s2 [v va]]|x|p0|]; cbn [bind good] in *; try exact I.
+        destruct Hb as (Hi2 & Hv & Hd2 & Hs2 & Hp2). unfold VAL, CL in Hv. cbn [fst snd] in *.
+        pose proof (inv_set_refs_some s2 key v va Hi2 Hv) as Hi3.
+        set (s3 := set_refs s2 (rinsert key (Some (v, va)) (refs s2))) in *.
+        assert (Hd3 : forall k, dom (refs s2) k -> dom (refs s3) k) by (intros k Hk; subst s3; cbn [set_refs refs]; apply rinsert_dom; right; exact Hk).
+        split; [exact Hi3|]. split.
+        * unfold VAL, CL. cbn [fst ks_value]. intros k [<-|Hk].
+          -- left. subst s3. cbn [set_refs refs]. apply rinsert_dom. left. reflexivity.
+          -- apply (allk_mono s2 s3 Hd3 eq_refl). apply Hv, Hk.
+        * split; [|split].
+          -- intros k Hk. apply Hd3, Hd2. subst s1. cbn [set_refs refs]. apply rinsert_dom. right. exact Hk.
+          -- subst s3. cbn [set_refs scopes]. rewrite Hs2. reflexivity.
+          -- subst s3. cbn [set_refs refs]. rewrite pending_insert_some by (apply (inv_nodup s2 Hi2)).
+             rewrite Hp2. subst s1. cbn [set_refs refs]. rewrite pending_insert_none by (apply rget_none_dom, Hget).
+             rewrite filter_app. cbn [filter]. unfold neqk at 2. rewrite rkey_eqb_refl. cbn [negb]. rewrite app_nil_r.
+             apply filter_neqk_notin. intros Hin. apply pending_in in Hin. apply (in_map fst) in Hin. apply rget_none_dom in Hget. exact (Hget Hin).
+    - apply good_ret; [exact Hi|apply sub_nil].
+    - (* EBind *)
+      destruct (lookup_binding x (scopes s)) as [[v prev]|] eqn:Hl; [|exact I].
+      apply good_ret; [exact Hi|]. unfold VAL, CL. cbn [fst].
+      destruct (lookup_in _ _ _ Hl) as (id & sc & H1 & H2). eapply (inv_scopes s Hi); eassumption.
+    - (* EApp *)
+      eapply good_bind; [apply IH0, Hi|].
+      intros s1 [fv fa] Hi1 _ _ _ _. cbn beta iota. apply good_pure. intros lam _.
+      destruct lam as [?|?|?|?|?|?|?|?|? ?|? ? ?|?|?|?|?| |m i|?];
+        try (eapply good_bind; [apply (map_st_good (fun va : aval => ks_value (fst va)) EV IH0), Hi1|];
+             intros s2 vs Hi2 Hvs _ _ _; cbn beta iota;
+             destruct vs as [|[vl al] [|[vr ar] [|v3 vs]]]; try exact I;
+             unfold CL in Hvs; cbn [flat_map fst] in Hvs; rewrite app_nil_r in Hvs; apply sub_app in Hvs as [Hvl Hvr];
+             apply good_pure; intros zru Hru; apply good_pure; intros zlu Hlu; apply good_pure; intros zu Hu;
+             apply good_ret; [exact Hi2|]; unfold VAL, CL; cbn [fst ks_value];
+             eapply uri_append_ks; [exact Hu|eapply cast_uri_ks; eassumption|eapply cast_uri_ks; eassumption]).
+      destruct (get_decl P m i) as [d|]; [|exact I].
+      eapply good_bind; [apply (bind_args_good EV IH0); [exact Hi1|intros x v a0 []]|].
+      intros s2 sc Hi2 Hsc _ _ _. cbn beta iota. apply good_pure. intros da _.
+      pose proof (inv_push s2 sc Hi2 Hsc) as Hip.
+      pose proof (IH (push_scope s2 sc) (d_rhs d) (extend da a) Hip) as Hb.
+      destruct (eval false P n (push_scope s2 sc) (d_rhs d) (extend da a)) as [[s3 [rv ra]]|x|p0|]; cbn [bind good] in *; try exact I.
+      destruct Hb as (Hi3 & Hv & Hd3 & Hs3 & Hp3). unfold VAL, CL in Hv. cbn [fst] in Hv. cbn [push_scope scopes refs] in Hs3, Hd3, Hp3.
+      destruct (inv_pop s3 _ sc (scopes s2) Hi3 Hs3) as [Hi4 Hmono].
+      { intros k x a0 Hin. pose proof (Hsc x (VRecur k) a0 Hin k (or_introl eq_refl)) as [Hk|Hk].
+        - left. cbn [pop_scope refs]. apply Hd3, Hk.
+        - right. unfold pop_scope. cbn [scopes]. rewrite Hs3. exact Hk. }
+      split; [exact Hi4|]. split; [unfold VAL, CL; cbn [fst]; eapply sub_mono; [exact Hmono|exact Hv]|].
+      split; [exact Hd3|]. split; [unfold pop_scope; cbn [scopes]; rewrite Hs3; reflexivity|exact Hp3].
+    - (* ERec *)
+      set (key := KRec m i (top_scope_id s)).
+      set (sc := [(x, (VRecur key, @nil (str * yaml)))]).
+      assert (Hsc : scope_cl sc (allk (push_scope s sc))).
+      { intros y v a0 [[= <- <- <-]|[]]. cbn [ks_value]. intros k [<-|[]]. right.
+        exists (seq s + 1), sc, x, []. split; [left; reflexivity|left; reflexivity]. }
+      assert (Hip : inv (push_scope s sc)).
+      { destruct Hi as [Hr Hs Hn Hp].
+        assert (Hmono : forall k, allk s k -> allk (push_scope s sc) k).
+        { intros k [H|(id & sc' & y & a0 & H1 & H2)]; [left; exact H|right]. exists id, sc', y, a0. split; [right; exact H1|exact H2]. }
+        constructor; cbn [push_scope refs scopes]; try assumption.
+        - intros k v a0 Hin. eapply sub_mono; [exact Hmono|]. eapply Hr, Hin.
+        - intros id sc' y v a0 [[= <- <-]|H1] H2; [eapply Hsc, H2|]. eapply sub_mono; [exact Hmono|]. eapply Hs; eassumption. }
+      pose proof (IH (push_scope s sc) e a Hip) as Hb.
+      destruct (eval false P n (push_scope s sc) e a) as [[s1 [rv ra]]|y|p0|]; cbn [bind good] in *; try exact I.
+      destruct Hb as (Hi1 & Hv & Hd1 & Hs1 & Hp1). unfold VAL, CL in Hv. cbn [fst snd] in *. cbn [push_scope scopes refs] in Hs1, Hd1, Hp1.
+      set (s2 := pop_scope s1).
+      set (s3 := set_refs s2 (rinsert key (Some (rv, ra)) (refs s2))).
+      assert (Hmono : forall k, allk s1 k -> allk s3 k).
+      { intros k [H|(id & sc' & y & a0 & H1 & H2)].
+        - left. subst s3 s2. cbn [set_refs pop_scope refs]. apply rinsert_dom. right. exact H.
+        - rewrite Hs1 in H1. destruct H1 as [[= <- <-]|H1].
+          + destruct H2 as [[= <- <- <-]|[]]. left. subst s3 s2. cbn [set_refs pop_scope refs]. apply rinsert_dom. left. reflexivity.
+          + right. subst s3 s2. unfold pop_scope. cbn [set_refs scopes]. rewrite Hs1. cbn [tl]. exists id, sc', y, a0. auto. }
+      assert (Hi3 : inv s3).
+      { destruct Hi1 as [Hr Hs Hn Hp]. constructor; subst s3 s2; cbn [set_refs pop_scope refs scopes].
+        - intros k v a0 Hin. apply rinsert_in in Hin as [[_ Hx]|Hin].
+          + injection Hx as -> ->. eapply sub_mono; [exact Hmono|exact Hv].
+          + eapply sub_mono; [exact Hmono|]. eapply Hr, Hin.
+        - intros id sc' y v a0 H1 H2. rewrite Hs1 in H1. cbn [tl] in H1.
+          eapply sub_mono; [exact Hmono|]. eapply (Hs id sc'); [rewrite Hs1; right; exact H1|exact H2].
+        - apply rinsert_nodup, Hn.
+        - rewrite pending_insert_some by exact Hn. intros k Hin. apply Hp. eapply filter_subset, Hin. }
+      split; [exact Hi3|]. split.
+      + unfold VAL, CL. cbn [fst ks_value]. intros k [<-|Hk].
+        * left. subst s3 s2. cbn [set_refs pop_scope refs]. apply rinsert_dom. left. reflexivity.
+        * apply Hmono, Hv, Hk.
+      + split; [|split].
+        * intros k Hk. subst s3 s2. cbn [set_refs pop_scope refs]. apply rinsert_dom. right. apply Hd1, Hk.
+        * subst s3 s2. unfold pop_scope. cbn [set_refs scopes]. rewrite Hs1. reflexivity.
+        * subst s3 s2. cbn [set_refs pop_scope refs]. rewrite pending_insert_some by (apply (inv_nodup s1 Hi1)).
+          rewrite filter_neqk_notin; [exact Hp1|]. intros Hin. apply (inv_norec s1 Hi1) in Hin. exact Hin.
+    - (* EObj *)
+      eapply good_bind; [apply (map_st_good ks_property); [|exact Hi]|].
+      { intros s0 x0 Hi0. apply (step_good EV (fun v => cast_property (fst v)) ks_property IH0); [|exact Hi0].
+        intros va x1 D Hc Hs. eapply cast_property_ks; eassumption. }
+      intros s1 props Hi1 Hps _ _ _. apply good_ret; [exact Hi1|exact Hps].
+    - (* EProp *)
+      eapply good_bind; [apply IH0, Hi|]. intros s1 [v va] Hi1 Hv _ _ _. cbn beta iota.
+      apply good_pure. intros sc Hsc. apply good_ret; [exact Hi1|]. unfold VAL, CL in *. cbn [fst ks_value ks_property] in *.
+      eapply cast_schema_ks; eassumption.
+    - (* EUnary *)
+      eapply good_bind; [apply IH0, Hi|]. intros s1 [v va] Hi1 Hv _ _ _. cbn beta iota.
+      apply good_pure. intros pr Hpr. apply good_ret; [exact Hi1|]. unfold VAL, CL in *. cbn [fst ks_value] in *.
+      rewrite set_required_ks. eapply cast_property_ks; eassumption.
+    - (* EArr *)
+      eapply good_bind; [apply IH0, Hi|]. intros s1 [v va] Hi1 Hv _ _ _. cbn beta iota.
+      apply good_pure. intros sc Hsc. apply good_ret; [exact Hi1|]. unfold VAL, CL in *. cbn [fst ks_value] in *.
+      eapply cast_schema_ks; eassumption.
+    - (* EOp *)
+      destruct (N.eqb op 3).
+      + eapply good_bind; [apply (map_st_good ks_ranges); [|exact Hi]|].
+        { intros s0 x0 Hi0. apply (step_good EV cast_ranges ks_ranges IH0); [|exact Hi0].
+          intros [v0 a0] x1 D Hc Hs. eapply cast_ranges_ks; eassumption. }
+        intros s1 rs Hi1 Hrs _ _ _. apply good_ret; [exact Hi1|]. unfold VAL, CL in *. cbn [fst ks_value].
+        apply fold_extend_ks; [apply sub_nil|exact Hrs].
+      + eapply good_bind; [apply (map_st_good ks_schema); [|exact Hi]|].
+        { intros s0 x0 Hi0. apply (step_good EV cast_schema ks_schema IH0); [|exact Hi0].
+          intros [v0 a0] x1 D Hc Hs. eapply cast_schema_ks; eassumption. }
+        intros s1 ss Hi1 Hss _ _ _. apply good_ret; [exact Hi1|exact Hss].
+    - (* ECont *)
+      eapply good_bind; [apply (opt_st_good ks_schema); [|exact Hi]|].
+      { intros s0 x0 Hi0. apply (step_good EV cast_schema ks_schema IH0); [|exact Hi0].
+        intros [v0 a0] x1 D Hc Hs. eapply cast_schema_ks; eassumption. }
+      intros s1 schema Hi1 Hsch _ _ _. cbn beta iota zeta.
+      eapply good_bind; [apply (eval_metas_good EV IH0); [exact Hi1|apply sub_nil]|].
+      intros s2 [[status media] headers] Hi2 Hh Hd2 Hs2 _. cbn [snd] in Hh. apply good_ret; [exact Hi2|].
+      unfold VAL, CL in *. cbn [fst ks_value ks_content]. apply sub_app. split; [|exact Hh].
+      eapply sub_mono; [apply (allk_mono s1 s2 Hd2 Hs2)|]. destruct schema; exact Hsch.
+    - (* EXfer *)
+      eapply good_bind; [apply (opt_st_good ks_content); [|exact Hi]|].
+      { intros s0 x0 Hi0. apply (step_good EV cast_content ks_content IH0); [|exact Hi0].
+        intros [v0 a0] x1 D Hc Hs. eapply cast_content_ks; eassumption. }
+      intros s1 dom0 Hi1 Hdom _ _ _. cbn beta iota zeta.
+      eapply good_bind; [apply IH0, Hi1|]. intros s2 [rv ra] Hi2 Hrv Hd2 Hs2 _. cbn beta iota.
+      apply good_pure. intros rg Hrg.
+      eapply good_bind; [apply (opt_st_good ks_props); [|exact Hi2]|].
+      { intros s0 x0 Hi0. apply (step_good EV (fun v => cast_object (fst v)) ks_props IH0); [|exact Hi0].
+        intros va x1 D Hc Hs. eapply cast_object_ks; eassumption. }
+      intros s3 prm Hi3 Hprm Hd3 Hs3 _. apply good_ret; [exact Hi3|].
+      unfold VAL, CL in *. cbn [fst ks_value]. rewrite ks_transfer_eq.
+      assert (M12 := allk_mono s1 s2 Hd2 Hs2). assert (M23 := allk_mono s2 s3 Hd3 Hs3).
+      apply sub_app. split; [|apply sub_app; split].
+      + eapply sub_mono; [exact M23|]. eapply sub_mono; [exact M12|]. destruct dom0 as [c|]; [exact Hdom|apply sub_nil].
+      + eapply sub_mono; [exact M23|]. eapply cast_ranges_ks; eassumption.
+      + destruct prm; exact Hprm.
+    - (* EUri *)
+      eapply good_bind.
+      { apply (map_st_good ks_useg (fun s (sg : str + expr) =>
+                 match sg with
+                 | inl x => Ok (s, ULit x)
+                 | inr v => do (s', pv) <- EV s v; do p <- cast_property (fst pv); Ok (s', UVar p)
+                 end)); [|exact Hi].
+        intros s0 [x0|v0] Hi0; [apply good_ret; [exact Hi0|apply sub_nil]|].
+        eapply good_bind; [apply IH0, Hi0|]. intros s1 [pv pa] Hi1 Hpv _ _ _. cbn beta iota.
+        apply good_pure. intros pr Hpr. apply good_ret; [exact Hi1|]. unfold VAL, CL in *. cbn [fst ks_useg] in *.
+        eapply cast_property_ks; eassumption. }
+      intros s1 path Hi1 Hpath _ _ _. cbn beta iota.
+      eapply good_bind; [apply (opt_st_good ks_props); [|exact Hi1]|].
+      { intros s0 x0 Hi0. apply (step_good EV (fun v => cast_object (fst v)) ks_props IH0); [|exact Hi0].
+        intros va x1 D Hc Hs. eapply cast_object_ks; eassumption. }
+      intros s2 prm Hi2 Hprm Hd2 Hs2 _. apply good_ret; [exact Hi2|].
+      unfold VAL, CL in *. cbn [fst ks_value ks_uri]. apply sub_app. split.
+      + eapply sub_mono; [apply (allk_mono s1 s2 Hd2 Hs2)|exact Hpath].
+      + destruct prm; exact Hprm.
+    - (* ERel *)
+      eapply good_bind; [apply IH0, Hi|]. intros s1 [uv ua] Hi1 Huv _ _ _. cbn beta iota.
+      apply good_pure. intros ur Hur.
+      eapply good_bind; [apply (map_st_good ks_transfer); [|exact Hi1]|].
+      { intros s0 x0 Hi0. apply (step_good EV (fun v => cast_transfer (fst v)) ks_transfer IH0); [|exact Hi0].
+        intros va x1 D Hc Hs. eapply cast_transfer_ks; eassumption. }
+      intros s2 ts Hi2 Hts Hd2 Hs2 _. apply good_ret; [exact Hi2|].
+      unfold VAL, CL in *. cbn [fst ks_value ks_relation]. apply sub_app. split.
+      + eapply sub_mono; [apply (allk_mono s1 s2 Hd2 Hs2)|]. eapply cast_uri_ks; eassumption.
+      + fold (ks_xfers (fold_left add_xfer ts no_xfers)). apply fold_add_xfer_ks; [rewrite no_xfers_ks; apply sub_nil|exact Hts].
+  Qed.
+End Main.
+
+(** * whole programs *)
+Lemma inv_st0 : inv st0.
+Proof.
+  constructor; cbn.
+  - intros k v a [].
+  - intros id sc x v a [].
+  - constructor.
+  - intros k [].
+Qed.
+
+Lemma refs_table_spec r : forall t, refs_table r = Ok t -> pending r = [] ->
+  map fst t = map fst r /\
+  forall k sc, In (k, sc) t -> exists v a, In (k, Some (v, a)) r /\ cast_schema (v, a) = Ok sc.
+Proof.
+  induction r as [|[k [[v a]|]] r IH]; intros t Ht Hp; cbn [refs_table] in Ht.
+  - injection Ht as <-. split; [reflexivity|intros k sc []].
+  - destruct (cast_schema (v, a)) as [sc| | |] eqn:Hc; cbn [bind] in Ht; try discriminate Ht.
+    destruct (refs_table r) as [t'| | |] eqn:Ht'; cbn [bind] in Ht; try discriminate Ht. injection Ht as <-.
+    destruct (IH t' eq_refl Hp) as [Hk Hs]. split; [cbn [map fst]; f_equal; exact Hk|].
+    intros k' sc' [[= <- <-]|Hin]; [exists v, a; split; [left; reflexivity|exact Hc]|].
+    destruct (Hs k' sc' Hin) as (v' & a' & H1 & H2). exists v', a'. split; [right; exact H1|exact H2].
+  - discriminate Hp.
+Qed.
+
+Theorem spec_closed P n rs rels table :
+  eval_program false P n rs = Ok (rels, table) ->
+  (forall k, In k (flat_map ks_relation rels) -> In k (map fst table)) /\
+  (forall k sc, In (k, sc) table -> forall k', In k' (ks_schema sc) -> In k' (map fst table)).
+Proof.
+  unfold eval_program. intros H.
+  pose proof (map_st_good ks_relation
+                (fun s r => do (s', v) <- eval false P n s r []; do rel <- cast_relation (fst v); Ok (s', rel))) as Hm.
+  specialize (Hm (fun s x Hi => step_good (fun s e => eval false P n s e []) (fun v => cast_relation (fst v)) ks_relation
+                                  (fun s e Hi' => closure P n s e [] Hi')
+                                  (fun va x1 D Hc Hs => cast_relation_ks (fst va) x1 D Hc Hs) s x Hi) rs st0 inv_st0).
+  destruct (map_st _ st0 rs) as [[s1 rels']|x|p|]; cbn [bind good] in *; try discriminate H.
+  destruct Hm as (Hi1 & Hrels & _ & Hs1 & Hp1). cbn [st0 scopes refs pending flat_map] in Hs1, Hp1.
+  destruct (refs_table (refs s1)) as [t| | |] eqn:Ht; cbn [bind] in H; try discriminate H.
+  injection H as <- <-.
+  destruct (refs_table_spec _ _ Ht Hp1) as [Hkeys Hent].
+  assert (Hall : forall k, allk s1 k -> In k (map fst t)).
+  { intros k [Hk|(id & sc & x & a & H1 & _)]; [rewrite Hkeys; exact Hk|]. rewrite Hs1 in H1. destruct H1. }
+  split.
+  - intros k Hk. apply Hall, Hrels, Hk.
+  - intros k sc Hin k' Hk'. destruct (Hent k sc Hin) as (v & a & H1 & H2).
+    apply Hall. eapply (cast_schema_ks v a sc (allk s1) H2); [|exact Hk'].
+    eapply (inv_refs s1 Hi1), H1.
+Qed.
+
+(** non-vacuity: a recursive schema applied twice from inside a function; two components, both
+    referenced, the table is closed *)
+Definition ex_rec_P : prog :=
+  [[ mk_decl None false [] [7] (ERec 0 1 9 (EObj [EProp 20 None (ETerm [] (EBind 7)); EProp 21 None (EArr (ETerm [] (EBind 9)))]));
+     mk_decl None false [] [7; 8] (EObj [EProp 22 None (ESub (EApp (EDecl 0 0) [ETerm [] (EBind 7)]));
+                                          EProp 23 None (ESub (EApp (EDecl 0 0) [ETerm [] (EBind 8)]))]) ]].
+Definition ex_rec_rs : list expr :=
+  [ERel (ETerm [] (EUri [inl 30] None))
+        [EXfer [0] None (ECont (Some (EApp (EDecl 0 1) [ETerm [] (EPrim 1); ETerm [] (EPrim 3)])) []) None]].
+
+Lemma ex_rec_two_components :
+  exists rels sc1 sc2 k1 k2, eval_program false ex_rec_P 50 ex_rec_rs = Ok (rels, [(k1, sc1); (k2, sc2)]) /\ k1 <> k2 /\
+    In k1 (flat_map ks_relation rels) /\ In k2 (flat_map ks_relation rels).
+Proof. eexists _, _, _, _, _. split; [vm_compute; reflexivity|]. split; [discriminate|]. split; cbn; auto 10. Qed.
